@@ -2,7 +2,7 @@
 From Coq Require Import Extraction ExtrOcamlBasic.
 From GV Require Import Base.Util Base.NMap Circuit.Ssa Circuit.Reg Circuit.RegAlloc
   Builder.Builder Builder.Build Gadgets.Gadgets
-  Lang.Types Lang.Literal.
+  Lang.Types Lang.Literal Exhaust.Pat Exhaust.Covers.
 Extraction Language OCaml.
 Set Extraction AccessOpaque.
 Separate Extraction
@@ -18,4 +18,6 @@ Separate Extraction
   Gadgets.push_signed_division_circuit Gadgets.push_gt_circuit Gadgets.push_comparator_circuit
   Gadgets.push_condswap Gadgets.push_sorter Gadgets.push_bitonic_merger Gadgets.push_bitonic_sorter
   Types.resolve_defs Types.resolve_ty Types.empty_env Types.size Types.wf
-  Literal.is_of_type Literal.as_bits Literal.from_bits Literal.denote Literal.has_type.
+  Literal.is_of_type Literal.as_bits Literal.from_bits Literal.denote Literal.has_type
+  Pat.has_type Pat.pat_matches Pat.pat_wt Pat.select_arm
+  Covers.covers Covers.uncovered Covers.witness_ok Covers.region_reps.
